@@ -692,6 +692,33 @@ def _e_mod(a, b):
     return np.remainder(a, b)
 
 
+def _e_log1p(a):
+    return _m1("log")(1 + a) if isinstance(a, (SR, SB)) else np.log1p(a)
+
+
+def _e_expm1(a):
+    return _m1("exp")(a) - 1 if isinstance(a, (SR, SB)) else np.expm1(a)
+
+
+def _e_hypot(a, b):
+    if isinstance(a, (SR, SB)) or isinstance(b, (SR, SB)):
+        return _m1("sqrt")(lift(a) * lift(a) + lift(b) * lift(b))
+    return np.hypot(a, b)
+
+
+def _e_arctan2(a, b):
+    if isinstance(a, (SR, SB)) or isinstance(b, (SR, SB)):
+        a, b = lift(a), lift(b)
+        return SR(uf("arctan2", 2)(a.t, b.t), _or_nan(a.nan, b.nan))       # opaque
+    return np.arctan2(a, b)
+
+
+def _e_isinf(a):
+    if isinstance(a, SR):
+        return SB(z3.BoolVal(False))       # symbolic reals are finite or NaN
+    return np.isinf(a)
+
+
 UFUNC_IMPL = {
     np.add: (operator.add, 2), np.subtract: (operator.sub, 2), np.multiply: (operator.mul, 2),
     np.true_divide: (_e_div, 2), np.negative: (operator.neg, 1), np.positive: (operator.pos, 1),
@@ -706,6 +733,10 @@ UFUNC_IMPL = {
     np.exp: (_m1("exp"), 1), np.log: (_m1("log"), 1), np.log10: (_m1("log10"), 1),
     np.sqrt: (_m1("sqrt"), 1), np.cos: (_m1("cos"), 1), np.sin: (_m1("sin"), 1),
     np.conjugate: (lambda a: a, 1),
+    np.tan: (_m1("tan"), 1), np.arctan: (_m1("arctan"), 1), np.arcsin: (_m1("arcsin"), 1), np.arccos: (_m1("arccos"), 1),
+    np.tanh: (_m1("tanh"), 1), np.sinh: (_m1("sinh"), 1), np.cosh: (_m1("cosh"), 1), np.log2: (_m1("log2"), 1),
+    np.cbrt: (_m1("cbrt"), 1), np.log1p: (_e_log1p, 1), np.expm1: (_e_expm1, 1), np.hypot: (_e_hypot, 2),
+    np.arctan2: (_e_arctan2, 2), np.float_power: (spow, 2), np.isinf: (_e_isinf, 1),
     np.floor: (_e_floor, 1), np.ceil: (_e_ceil, 1), np.trunc: (_e_trunc, 1),
     np.floor_divide: (_e_floordiv, 2), np.remainder: (_e_mod, 2),
 }
